@@ -41,6 +41,7 @@ import (
 	"github.com/ipfs/go-datastore"
 	contextds "github.com/ipfs/go-datastore/context"
 	dssync "github.com/ipfs/go-datastore/sync"
+	logging "github.com/ipfs/go-log/v2"
 
 	libhead "github.com/celestiaorg/go-header"
 
@@ -227,7 +228,9 @@ func (e *c14lExchange) one(ctx context.Context, c cid.Cid) (blocks.Block, error)
 	return blocks.NewBlockWithCid(blk.RawData(), got)
 }
 
-func (e *c14lExchange) GetBlock(ctx context.Context, c cid.Cid) (blocks.Block, error) { return e.one(ctx, c) }
+func (e *c14lExchange) GetBlock(ctx context.Context, c cid.Cid) (blocks.Block, error) {
+	return e.one(ctx, c)
+}
 func (e *c14lExchange) GetBlocks(ctx context.Context, cids []cid.Cid) (<-chan blocks.Block, error) {
 	out := make(chan blocks.Block, len(cids))
 	for _, c := range cids {
@@ -240,7 +243,7 @@ func (e *c14lExchange) GetBlocks(ctx context.Context, cids []cid.Cid) (<-chan bl
 }
 func (e *c14lExchange) NotifyNewBlocks(context.Context, ...blocks.Block) error { return nil }
 func (e *c14lExchange) Close() error                                           { return nil }
-func (e *c14lExchange) NewSession(context.Context) exchange.Fetcher             { return e }
+func (e *c14lExchange) NewSession(context.Context) exchange.Fetcher            { return e }
 
 // ---------------------------------------------------------------- fault-injecting blockstore
 
@@ -548,7 +551,7 @@ func c14lRun(t *testing.T, r *zv.Run, g *zv.Group, sc c14lScenario, idx int) {
 		}
 		w.cids = append(w.cids, listed)
 		for _, c := range listed {
-			known[c.KeyString()] = true
+			known[string(c.Hash())] = true
 		}
 		// anything else stored by this sampling is a block no index lists
 		var extra []cid.Cid
@@ -557,8 +560,8 @@ func c14lRun(t *testing.T, r *zv.Run, g *zv.Group, sc c14lScenario, idx int) {
 			t.Fatal(err)
 		}
 		for c := range keys {
-			if !known[c.KeyString()] {
-				known[c.KeyString()] = true
+			if !known[string(c.Hash())] {
+				known[string(c.Hash())] = true
 				extra = append(extra, c)
 			}
 		}
@@ -579,7 +582,6 @@ func c14lRun(t *testing.T, r *zv.Run, g *zv.Group, sc c14lScenario, idx int) {
 
 	w.la = NewShareAvailability(w.getter, ds, w.bs)
 	lastResult := map[uint64]bool{} // height -> last Prune verdict
-	everFailed := map[uint64]bool{}
 	for cyc := 0; cyc < sc.Cycles; cyc++ {
 		_, hadCp := w.checkpoint()
 		svc, err := pruner.NewService(w, c14lWindow, hs, ds, c14lBlockTime, pruner.WithPruneCycle(time.Hour))
@@ -593,7 +595,7 @@ func c14lRun(t *testing.T, r *zv.Run, g *zv.Group, sc c14lScenario, idx int) {
 		if err := svc.Start(ctx); err != nil {
 			t.Fatal(err)
 		}
-		hs.waitTailCalls(want) // the cycle has begun (it holds the checkpoint mutex) ...
+		hs.waitTailCalls(want)                         // the cycle has begun (it holds the checkpoint mutex) ...
 		if _, err := svc.LastPruned(ctx); err != nil { // ... and this returns when it is over
 			t.Fatal(err)
 		}
@@ -649,7 +651,6 @@ func c14lRun(t *testing.T, r *zv.Run, g *zv.Group, sc c14lScenario, idx int) {
 					cyc+1, c.Height, c.Faults, c.Deletes, left, len(c.After), c.IdxA))
 			}
 			if !c.OK {
-				everFailed[c.Height] = true
 				if _, in := cp.FailedHeaders[c.Height]; !in {
 					viol("light-prune-error-not-recorded", fmt.Sprintf("cycle %d: Prune of height %d failed (%s) but the height is not in the persisted failed set %v", cyc+1, c.Height, c.Err, c14lSet(cp.FailedHeaders)))
 				}
@@ -680,26 +681,27 @@ func c14lRun(t *testing.T, r *zv.Run, g *zv.Group, sc c14lScenario, idx int) {
 			}
 			idxNow := w.hasIndex(hi)
 			_, failed := cp.FailedHeaders[height]
+			mustPrune := ht.Add(c14lBlockTime).Before(cutoff)
 			switch {
 			case ht.After(cutoff):
 				if left != len(w.cids[hi]) || (len(w.cids[hi]) > 0 && !idxNow) {
 					viol("light-in-window-data-removed", fmt.Sprintf("cycle %d: height %d is inside the window but %d of its %d sample blocks / its sampling result (present: %v) are gone", cyc+1, height, len(w.cids[hi])-left, len(w.cids[hi]), idxNow))
 				}
-			case !failed && height <= cp.LastPrunedHeight:
+			case w.attempts[height] == 0:
+				if mustPrune {
+					viol("light-old-height-skipped", fmt.Sprintf("cycle %d: height %d is older than the cutoff by more than a block time but was never handed to Prune (checkpoint %d, failed %v)", cyc+1, height, cp.LastPrunedHeight, c14lSet(cp.FailedHeaders)))
+				}
+			case !failed:
 				if left > 0 || idxNow {
-					viol("light-pruned-height-leftover", fmt.Sprintf("cycle %d: height %d is covered by the checkpoint (last pruned %d) and not in the failed set %v, but %d sample block(s) are still stored (sampling result present: %v): neither pruned nor recorded as failed",
-						cyc+1, height, cp.LastPrunedHeight, c14lSet(cp.FailedHeaders), left, idxNow))
+					viol("light-pruned-height-leftover", fmt.Sprintf("cycle %d: height %d was handed to Prune and is not in the failed set %v (last pruned %d), but %d sample block(s) are still stored (sampling result present: %v): neither pruned nor recorded as failed",
+						cyc+1, height, c14lSet(cp.FailedHeaders), cp.LastPrunedHeight, left, idxNow))
 				}
-			case failed:
-				if called[height] == 0 && cyc > 0 {
+			default:
+				if called[height] == 0 {
 					viol("light-failed-not-retried", fmt.Sprintf("cycle %d: height %d is in the failed set but was not handed to Prune", cyc+1, height))
+				} else if lastResult[height] {
+					viol("light-pruned-still-failed", fmt.Sprintf("cycle %d: height %d was pruned successfully but is still in the failed set", cyc+1, height))
 				}
-			}
-			if ht.Add(c14lBlockTime).Before(cutoff) && !failed && height > cp.LastPrunedHeight {
-				viol("light-old-height-skipped", fmt.Sprintf("cycle %d: height %d is older than the cutoff by more than a block time, but neither covered by the checkpoint (%d) nor failed", cyc+1, height, cp.LastPrunedHeight))
-			}
-			if failed && everFailed[height] && called[height] > 0 && lastResult[height] {
-				viol("light-pruned-still-failed", fmt.Sprintf("cycle %d: height %d was pruned successfully but is still in the failed set", cyc+1, height))
 			}
 		}
 	}
@@ -709,6 +711,9 @@ func c14lRun(t *testing.T, r *zv.Run, g *zv.Group, sc c14lScenario, idx int) {
 		height := uint64(hi + 1)
 		if w.hdrs[hi].Time().After(cutoff) {
 			continue
+		}
+		if w.attempts[height] == 0 {
+			continue // not old enough to be found (reported above when it had to be)
 		}
 		heals := c14lHeals(hc)
 		left := 0
@@ -768,6 +773,9 @@ func TestVerifC14Light(t *testing.T) {
 	r := zv.Start(t, "C14")
 	defer r.Finish()
 	g := r.Group("light", c14lHeader, "lcase", "light_mismatches")
+	// every injected fault is logged as an error by the service and the availability: keep the run's log readable
+	_ = logging.SetLogLevel("pruner/service", "fatal")
+	_ = logging.SetLogLevel("share/light", "fatal")
 	var rp struct {
 		Scenario c14lScenario `json:"scenario"`
 	}
@@ -790,7 +798,7 @@ func TestVerifC14Light(t *testing.T) {
 			i++
 		}
 	}
-	for k := 0; k < r.N(40, 600); k++ {
+	for k := 0; k < r.N(150, 2000); k++ {
 		c14lRun(t, r, g, c14lGen(rng.Fork(uint64(k))), i)
 		i++
 	}
